@@ -472,6 +472,7 @@ pub fn run(cfg: &RunCfg) -> CheckReport {
         "model: for every pair (old,new) of the listed scopes the edit lattice with states (o,n) and edges equal(len>=1 over matching items) / delete(len>=1) / insert(len>=1), indices exact; every path (0,0)->(N,M) is one trace = one valid edit script (no restriction on order or on consecutive same-kind calls). Every trace is replayed through Replace<Capture>, Compact<Capture>, Compact<Replace<Capture>> via DiffOp::apply_to_hook + finish. evaluations = traces; non-trivial: the script has >= 3 calls; traces are distinct by construction (distinct paths of distinct pairs).",
     );
     rep.assume("oracles: C02 cursor automaton, cost equality, C09 normal form for both adapters, exact indices for Replace alone; carried indices after Compact are not examined (KF1, C11)");
+    rep.assume("adapter reuse: a Replace value is taken to be reusable after a finished or an aborted script (on the pinned tree it returns to its initial state on every flush); this leans on observed, not stated, behaviour (DESIGN.md section 13). Compact is never reused: it is built for one pair of sequences and keeps its op list");
     let space = PairSpace::new(scopes(cfg.tier));
     let ex = explore(cfg, space.nshards(), |shard, acc| {
         space.for_each(shard, |old, new| {
